@@ -316,6 +316,10 @@ func (d *Do) collectBlockVariables(p *parser.Parser) ([]*base.T, error) {
 			return []*base.T{}, err
 		}
 
+		if nextT == nil {
+			return blockVariables, nil
+		}
+
 		if nextT.IsTargetIdentifier("|") {
 			return blockVariables, nil
 		}
